@@ -621,4 +621,332 @@ Section OCalls.
         cbn [fst snd] in O1, Ec. subst cw. split; [exact O1|apply ohdrel_new].
       + split; [exact O|]. cbn [snd]. apply o_enf_sim; [exact O|reflexivity|exact (keyok_rooted Hoka Hra)].
   Qed.
+
+  Lemma enf_fail sw sl (O : orel sw sl) (q : str) ew el : keyok q ->
+    okres (o_enf sw (W q) (RFail ew)) = okres (o_enf sl q (RFail el)).
+  Proof. intros Hq. apply o_enf_sim; [exact O|reflexivity|exact Hq]. Qed.
+
+  Lemma o_enf_fails (s : ofs) (p : str) e : okres (o_enf s p (RFail e)) = false.
+  Proof.
+    unfold o_enf. generalize (S (length p)). intros fuel. revert p. induction fuel as [|f IH]; intros p; [reflexivity|].
+    cbn [o_enf_loop]. destruct (Nat.leb _ _); [reflexivity|]. destruct (osplit (o_os s) p) as [[dn fn]|]; [|reflexivity].
+    destruct (ofind s dn) as [[i n]|]; [destruct (on_dir n); reflexivity|apply IH].
+  Qed.
+
+  (* ---- Remove --------------------------------------------------------------------------------------- *)
+  Lemma o_remove_sim sw sl (O : orel sw sl) (r : str) : okstr (SLASH :: r) ->
+    ocrel (o_remove sw (W (SLASH :: r))) (o_remove sl (SLASH :: r)).
+  Proof.
+    intros Hok. unfold o_remove. use_abs sw sl r O Hok q Hoka Hra. rewrite (or_osw O), (or_osl O).
+    use_split q Hoka Hra dl fl E1 E2 Hkd Hokf Hmp Hlt Hq. rewrite E1, E2.
+    pose proof (keyok_rooted Hoka Hra) as Hkq.
+    use_find sw sl q O iw nw il nl Hi Hn.
+    2:{ destruct (ofind sw (W dl)) as [[? ?]|]; destruct (ofind sl dl) as [[? ?]|];
+          (split; [exact O|cbn [snd]; apply enf_fail; [exact O|exact Hkq]]). }
+    use_find sw sl dl O pw pnw pl pnl Hpi Hpn.
+    2:{ split; [exact O|cbn [snd]; apply enf_fail; [exact O|exact Hkq]]. }
+    destruct (Nat.eqb il pl); [apply ocrel_fail, O|].
+    destruct Hn as (Ech & Edt & Enl & Eid & Hdir). rewrite Hdir, Ech.
+    destruct (on_dir nl && match on_ch nl with [] => false | _ :: _ => true end); [apply ocrel_fail, O|].
+    split; [|reflexivity]. cbn [fst]. rewrite (or_index O), (aremove_W d).
+    apply orel_with; [exact O|apply keys_aremove, O| | |].
+    - rewrite (ikey_aremove_other _ (fun E : [] = q => rooted_ne Hra (eq_sym E))). apply O.
+    - apply o_del_child_sim, o_release_sim, O.
+    - apply o_del_child_names, o_release_names, O.
+  Qed.
+
+  (* ---- calls on one existing node ----------------------------------------------------------------------- *)
+  Lemma o_truncate_sim sw sl (O : orel sw sl) (r : str) size : okstr (SLASH :: r) ->
+    ocrel (o_truncate sw (W (SLASH :: r)) size) (o_truncate sl (SLASH :: r) size).
+  Proof.
+    intros Hok. unfold o_truncate, owin. rewrite (or_osw O), (or_osl O). cbn [ostype_eqb negb]. rewrite andb_false_r.
+    destruct (@oabs_W d Hd sw sl r O Hok) as (Ea & Hoka & Hra). rewrite Ea. set (q := oabs sl (SLASH :: r)) in *.
+    pose proof (keyok_rooted Hoka Hra) as Hkq.
+    destruct (Z.ltb size 0) eqn:Esz; cbn [andb].
+    - (* negative size: refused at once on Linux, after the lookup on Windows *)
+      split; [|].
+      + destruct (ofind sw (W q)) as [[c cn]|]; [|exact O]. destruct (on_dir cn); exact O.
+      + destruct (ofind sw (W q)) as [[c cn]|]; cbn [snd].
+        * destruct (on_dir cn); reflexivity.
+        * rewrite o_enf_fails. reflexivity.
+    - use_find sw sl q O iw nw il nl Hi Hn.
+      2:{ split; [exact O|cbn [snd]; apply enf_fail; [exact O|exact Hkq]]. }
+      destruct Hn as (Ech & Edt & Enl & Eid & Hdir). rewrite Hdir, Edt. destruct (on_dir nl) eqn:Edir; [apply ocrel_fail, O|].
+      split; [|reflexivity]. cbn [fst]. apply orel_with_heap; [exact O| |].
+      + apply oheap_upd; [apply O|]. apply onrel_data. unfold onrel. repeat split; try assumption; congruence.
+      + apply names_upd; [apply O|]. apply names_data. exact (@ofind_names sw sl O q il nl Efl).
+  Qed.
+
+  Lemma o_chmod_sim sw sl (O : orel sw sl) (r : str) mode : okstr (SLASH :: r) ->
+    ocrel (o_chmod sw (W (SLASH :: r)) mode) (o_chmod sl (SLASH :: r) mode).
+  Proof.
+    intros Hok. unfold o_chmod. use_abs sw sl r O Hok q Hoka Hra.
+    pose proof (keyok_rooted Hoka Hra) as Hkq.
+    use_find sw sl q O iw nw il nl Hi Hn.
+    2:{ split; [exact O|cbn [snd]; apply enf_fail; [exact O|exact Hkq]]. }
+    split; [|reflexivity]. cbn [fst]. apply orel_with_heap; [exact O| |].
+    - apply oheap_upd; [apply O|]. apply onrel_meta; [exact Hn|]. rewrite !with_mode_dir. apply Hn.
+    - apply names_upd; [apply O|]. exact (@ofind_names sw sl O q il nl Efl).
+  Qed.
+
+  (* Chown / Lchown: not supported on Windows (documented); the states stay related *)
+  Lemma o_chown_sim sw sl (O : orel sw sl) (r : str) uid gid : okstr (SLASH :: r) ->
+    orel (fst (o_chown sw (W (SLASH :: r)) uid gid)) (fst (o_chown sl (SLASH :: r) uid gid))
+    /\ okres (snd (o_chown sw (W (SLASH :: r)) uid gid)) = false.
+  Proof.
+    intros Hok. unfold o_chown, owin. rewrite (or_osw O), (or_osl O). cbn [ostype_eqb fst snd]. split; [|reflexivity].
+    destruct (ofind sl (oabs sl (SLASH :: r))) as [[c cn]|] eqn:Efl; [|exact O]. cbn [fst].
+    destruct O as [OI OK OH ON OD OU OM OW OL OR]. constructor; cbn [o_with_heap o_with o_index o_heap o_last_id o_user o_umask o_os]; auto.
+    - (* only the owner changes, on the Linux side *)
+      pose proof (@ofind_get sl _ c cn Efl) as Eg. clear -OH Eg.
+      revert c Eg. induction OH as [|a b hw hl Hab H IH]; intros c Eg; [destruct c; discriminate|].
+      destruct c; cbn [oupd].
+      + cbn in Eg. injection Eg as ->. constructor; [|exact H]. destruct Hab as (E1 & E2 & E3 & E4 & E5).
+        unfold onrel, on_with_meta, on_dir in *. cbn. auto.
+      + constructor; [exact Hab|]. apply IH. exact Eg.
+    - apply names_upd; [exact ON|]. exact (@names_get (o_heap sl) c cn ON (@ofind_get sl _ c cn Efl)).
+  Qed.
+
+  Lemma o_chtimes_sim sw sl (O : orel sw sl) (r : str) : okstr (SLASH :: r) ->
+    okres (o_chtimes sw (W (SLASH :: r))) = okres (o_chtimes sl (SLASH :: r)).
+  Proof.
+    intros Hok. unfold o_chtimes. use_abs sw sl r O Hok q Hoka Hra.
+    use_find sw sl q O iw nw il nl Hi Hn; [reflexivity|]. apply enf_fail; [exact O|exact (keyok_rooted Hoka Hra)].
+  Qed.
+
+  Lemma orel_with_cwd sw sl cw cl : orel sw sl -> orel (o_with_cwd sw cw) (o_with_cwd sl cl).
+  Proof. intros O. destruct O. constructor; cbn; auto. Qed.
+
+  Lemma o_chdir_sim sw sl (O : orel sw sl) (r : str) : okstr (SLASH :: r) ->
+    ocrel (o_chdir sw (W (SLASH :: r))) (o_chdir sl (SLASH :: r)).
+  Proof.
+    intros Hok. unfold o_chdir. use_abs sw sl r O Hok q Hoka Hra.
+    use_find sw sl q O iw nw il nl Hi Hn.
+    2:{ split; [exact O|cbn [snd]; apply enf_fail; [exact O|exact (keyok_rooted Hoka Hra)]]. }
+    destruct Hn as (_ & _ & _ & _ & Hdir). rewrite Hdir. destruct (on_dir nl); [|apply ocrel_fail, O].
+    split; [apply orel_with_cwd, O|reflexivity].
+  Qed.
+
+  Lemma o_stat_sim sw sl (O : orel sw sl) (r : str) : okstr (SLASH :: r) ->
+    okres (o_stat sw (W (SLASH :: r))) = okres (o_stat sl (SLASH :: r)).
+  Proof.
+    intros Hok. unfold o_stat. use_abs sw sl r O Hok q Hoka Hra. rewrite (or_osw O), (or_osl O).
+    use_split q Hoka Hra dl fl E1 E2 Hkd Hokf Hmp Hlt Hq. rewrite E1, E2.
+    use_find sw sl q O iw nw il nl Hi Hn; [reflexivity|].
+    use_find sw sl dl O pw pnw pl pnl Hpi Hpn.
+    - destruct Hpn as (_ & _ & _ & _ & Hdir). rewrite Hdir. destruct (on_dir pnl); reflexivity.
+    - apply enf_fail; [exact O|exact (keyok_rooted Hoka Hra)].
+  Qed.
+
+  (* ---- Link ------------------------------------------------------------------------------------------ *)
+  Lemma onrel_nlink nw nl k : onrel nw nl -> onrel (on_with_nlink nw k) (on_with_nlink nl k).
+  Proof. intros (E1 & E2 & E3 & E4 & E5). unfold onrel, on_with_nlink, on_dir in *. cbn. auto. Qed.
+
+  Lemma o_link_sim sw sl (O : orel sw sl) (ro rn : str) : okstr (SLASH :: ro) -> okstr (SLASH :: rn) ->
+    ocrel (o_link sw (W (SLASH :: ro)) (W (SLASH :: rn))) (o_link sl (SLASH :: ro) (SLASH :: rn)).
+  Proof.
+    intros Hoko Hokn. unfold o_link, owin.
+    destruct (@oabs_W d Hd sw sl ro O Hoko) as (Eao & Hokao & Hrao). rewrite Eao. set (qo := oabs sl (SLASH :: ro)) in *.
+    destruct (@oabs_W d Hd sw sl rn O Hokn) as (Ean & Hokan & Hran). rewrite Ean. set (qn := oabs sl (SLASH :: rn)) in *.
+    rewrite (or_osw O), (or_osl O). cbn [ostype_eqb].
+    use_split qn Hokan Hran dn fn E1 E2 Hkd Hokf Hmp Hlt Hq. rewrite E1, E2.
+    pose proof (keyok_rooted Hokao Hrao) as Hkqo. pose proof (keyok_rooted Hokan Hran) as Hkqn.
+    use_find sw sl qo O iw nw il nl Hi Hn.
+    2:{ use_split qo Hokao Hrao dno fno E3 E4 Hkdo Hokfo Hmpo Hlto Hqo. rewrite E4.
+        split; [exact O|]. cbn [snd].
+        destruct (ofind sw (W dno)) as [[? ?]|]; [rewrite !o_enf_fails; reflexivity|rewrite o_enf_fails; reflexivity]. }
+    use_find sw sl dn O pw pnw pl pnl Hpi Hpn.
+    2:{ split; [exact O|cbn [snd]; apply enf_fail; [exact O|exact Hkqn]]. }
+    destruct Hpn as (_ & _ & _ & _ & Hdirp). rewrite Hdirp. destruct (negb (on_dir pnl)); [apply ocrel_fail, O|].
+    use_find sw sl qn O cw cnw cl cnl Hci Hcn; [apply ocrel_fail, O|].
+    destruct Hn as (Ech & Edt & Enl & Eid & Hdir). rewrite Hdir. destruct (on_dir nl) eqn:Edir; [apply ocrel_fail, O|].
+    split; [|reflexivity]. cbn [fst]. rewrite (or_index O), (aset_W d).
+    assert (H1 : Forall2 onrel (o_add_child (o_heap sw) pl fn il) (o_add_child (o_heap sl) pl fn il)) by (apply o_add_child_sim, O).
+    assert (N1 : Forall names_ok (o_add_child (o_heap sl) pl fn il)) by (apply o_add_child_names; [split; assumption|apply O]).
+    apply orel_with; [exact O|apply keys_aset; [exact Hkqn|apply O]| | |].
+    - rewrite (ikey_aset_other _ _ (fun E : [] = qn => rooted_ne Hran (eq_sym E))). apply O.
+    - pose proof (oheap_get il H1) as Hg.
+      destruct (oget (o_add_child (o_heap sw) pl fn il) il) as [a|]; destruct (oget (o_add_child (o_heap sl) pl fn il) il) as [b|];
+        try contradiction; [|exact H1].
+      destruct Hg as (G1 & G2 & G3 & G4 & G5). rewrite G3. apply oheap_upd; [exact H1|]. apply onrel_nlink. unfold onrel. auto.
+    - destruct (oget (o_add_child (o_heap sl) pl fn il) il) as [b|] eqn:Eb; [|exact N1].
+      apply names_upd; [exact N1|]. exact (@names_get _ il b N1 Eb).
+  Qed.
+
+  (* ---- RemoveAll -------------------------------------------------------------------------------------- *)
+  Definition strel (stw stl : list (str * nat) * oheap) : Prop :=
+    fst stw = map wkey (fst stl) /\ Forall (fun e : str * nat => keyok (fst e)) (fst stl)
+    /\ Forall2 onrel (snd stw) (snd stl) /\ Forall names_ok (snd stl) /\ ikey (fst stl) [] <> None.
+
+  Lemma fold_rel (A B X : Type) (Rel : A -> B -> Prop) (P : X -> Prop) (f : A -> X -> A) (g : B -> X -> B) (l : list X) :
+    (forall a b x, P x -> Rel a b -> Rel (f a x) (g b x)) -> Forall P l ->
+    forall a b, Rel a b -> Rel (fold_left f l a) (fold_left g l b).
+  Proof.
+    intros Hstep Hl. induction Hl as [|x l Hx Hl IH]; intros a b Hab; [exact Hab|]. cbn [fold_left]. apply IH, Hstep; assumption.
+  Qed.
+
+  Lemma o_rm_all_sim : forall fuel stw stl (q : str) i, strel stw stl -> okstr q -> rooted q ->
+    strel (o_rm_all fuel Windows stw (W q) i) (o_rm_all fuel Linux stl q i).
+  Proof.
+    induction fuel as [|fuel IH]; intros stw stl q i St Hok Hr; [exact St|]. cbn [o_rm_all].
+    set (st1w := match oget (snd stw) i with
+                 | Some n => if on_dir n
+                             then fold_left (fun acc (e : str * nat) => o_rm_all fuel Windows acc (W q ++ [sepc Windows] ++ fst e) (snd e)) (on_ch n) stw
+                             else stw
+                 | None => stw end).
+    set (st1l := match oget (snd stl) i with
+                 | Some n => if on_dir n
+                             then fold_left (fun acc (e : str * nat) => o_rm_all fuel Linux acc (q ++ [sepc Linux] ++ fst e) (snd e)) (on_ch n) stl
+                             else stl
+                 | None => stl end).
+    assert (S1 : strel st1w st1l).
+    { unfold st1w, st1l. destruct St as (S1 & S2 & S3 & S4 & S5).
+      pose proof (oheap_get i S3) as Hg.
+      destruct (oget (snd stw) i) as [nw|]; destruct (oget (snd stl) i) as [nl|] eqn:El; try contradiction;
+        [|repeat split; assumption].
+      destruct Hg as (Ech & _ & _ & _ & Hdir). rewrite Hdir, Ech. destruct (on_dir nl); [|repeat split; assumption].
+      apply (@fold_rel _ _ (str * nat) strel (fun e => map phi (fst e) = fst e /\ okstr (fst e))).
+      - intros a b [name c] (Hmp & Hokn) Hab. cbn [fst snd] in *.
+        replace (W q ++ [sepc Windows] ++ name) with (W (q ++ [sepc Linux] ++ name)).
+        + apply IH; [exact Hab| |].
+          * apply okstr_app; [exact Hok|constructor; [exact okc_SLASH|exact Hokn]].
+          * destruct Hr as (r' & ->). eexists. reflexivity.
+        + rewrite (W_app d). cbn [map app]. rewrite Hmp. reflexivity.
+      - exact (@names_get (snd stl) i nl S4 El).
+      - repeat split; assumption. }
+    destruct S1 as (S1 & S2 & S3 & S4 & S5). unfold strel. cbn [fst snd]. rewrite S1, (aremove_W d).
+    split; [reflexivity|]. split; [apply keys_aremove, S2|]. split; [apply o_release_sim, S3|]. split; [apply o_release_names, S4|].
+    rewrite (ikey_aremove_other _ (fun E : [] = q => rooted_ne Hr (eq_sym E))). exact S5.
+  Qed.
+
+  Lemma o_remove_all_sim sw sl (O : orel sw sl) (r : str) : okstr (SLASH :: r) ->
+    ocrel (o_remove_all sw (W (SLASH :: r))) (o_remove_all sl (SLASH :: r)).
+  Proof.
+    intros Hok. unfold o_remove_all.
+    destruct (@oabs_W d Hd sw sl r O Hok) as (Ea & Hoka & Hra).
+    set (qw := oabs sw (W (SLASH :: r))) in *. set (q := oabs sl (SLASH :: r)) in *. expose_W. cbv iota.
+    rewrite Ea, (or_osw O), (or_osl O).
+    use_split q Hoka Hra dl fl E1 E2 Hkd Hokf Hmp Hlt Hq. rewrite E1, E2.
+    pose proof (keyok_rooted Hoka Hra) as Hkq.
+    assert (Henf : okres (o_enf sw (W q) ROk) = okres (o_enf sl q ROk)) by (apply o_enf_sim; [exact O|reflexivity|exact Hkq]).
+    use_find sw sl q O iw nw il nl Hi Hn.
+    2:{ destruct (ofind sw (W dl)) as [[? ?]|]; destruct (ofind sl dl) as [[? ?]|]; (split; [exact O|exact Henf]). }
+    use_find sw sl dl O pw pnw pl pnl Hpi Hpn; [|split; [exact O|exact Henf]].
+    destruct (Nat.eqb il pl); [apply ocrel_fail, O|].
+    assert (St : strel (o_index sw, o_heap sw) (o_index sl, o_heap sl)).
+    { unfold strel. cbn [fst snd]. split; [apply O|]. split; [apply O|]. split; [apply O|]. split; [apply O|apply O]. }
+    rewrite (oheap_length (or_heap O)).
+    pose proof (@o_rm_all_sim (S (length (o_heap sl))) _ _ q il St Hoka Hra) as Hrm.
+    destruct (o_rm_all (S (length (o_heap sl))) Windows (o_index sw, o_heap sw) (W q) il) as [idxw hw1].
+    destruct (o_rm_all (S (length (o_heap sl))) Linux (o_index sl, o_heap sl) q il) as [idxl hl1].
+    destruct Hrm as (S1 & S2 & S3 & S4 & S5). cbn [fst snd] in S1, S2, S3, S4, S5. subst idxw.
+    split; [|reflexivity]. cbn [fst]. apply orel_with; [exact O|exact S2|exact S5|apply o_del_child_sim, S3|apply o_del_child_names, S4].
+  Qed.
+
+  (* ---- Rename ----------------------------------------------------------------------------------------- *)
+  Lemma is_prefix_mp' (a b : str) : is_prefix (map phi a) (map phi b) = is_prefix a b.
+  Proof.
+    revert b. induction a as [|x a IH]; intros [|y b]; cbn [map is_prefix]; try reflexivity.
+    rewrite phi_eqb, IH. reflexivity.
+  Qed.
+
+  Lemma is_prefix_W' (a b : str) : is_prefix (W a ++ [BSLASH]) (W b) = is_prefix (a ++ [SLASH]) b.
+  Proof.
+    replace (W a ++ [BSLASH]) with (W (a ++ [SLASH])) by (rewrite (W_app d); reflexivity).
+    unfold PathEquiv.W, vol. cbn [app is_prefix]. rewrite !N.eqb_refl. cbn [andb]. apply is_prefix_mp'.
+  Qed.
+
+  Lemma o_rekey_W (o n : str) (idx : list (str * nat)) :
+    o_rekey Windows (W o) (W n) (map wkey idx) = map wkey (o_rekey Linux o n idx).
+  Proof.
+    unfold o_rekey. rewrite !map_map. apply map_ext. intros [k i]. unfold wkey at 1 3. cbn [fst snd].
+    change (sepc Windows) with BSLASH. change (sepc Linux) with SLASH. rewrite is_prefix_W'.
+    destruct (is_prefix (o ++ [SLASH]) k); [|reflexivity]. unfold wkey. cbn [fst snd].
+    rewrite (length_W d), (skipn_W d), <- (W_app d). reflexivity.
+  Qed.
+
+  Lemma o_rekey_keys (o n : str) (idx : list (str * nat)) : okstr n -> rooted n ->
+    Forall (fun e : str * nat => keyok (fst e)) idx -> Forall (fun e : str * nat => keyok (fst e)) (o_rekey Linux o n idx).
+  Proof.
+    intros Hn (r & Hr) H. unfold o_rekey. induction H as [|[k i] idx Hk H IH]; [constructor|]. cbn [map fst snd].
+    constructor; [|exact IH]. destruct (is_prefix (o ++ [sepc Linux]) k); [|exact Hk]. cbn [fst]. split.
+    - apply okstr_app; [exact Hn|apply okstr_skipn, Hk].
+    - right. rewrite Hr. eexists. reflexivity.
+  Qed.
+
+  Lemma o_rekey_root (o n : str) (idx : list (str * nat)) : n <> [] -> ikey (o_rekey Linux o n idx) [] = ikey idx [].
+  Proof.
+    intros Hn. unfold ikey, o_rekey. induction idx as [|[k i] idx IH]; [reflexivity|]. cbn [map alookup fst snd].
+    destruct (is_prefix (o ++ [sepc Linux]) k) eqn:Ep; cbn [alookup].
+    - destruct k as [|c k]; [destruct o; discriminate Ep|].
+      destruct (n ++ skipn (length o) (c :: k)) eqn:En; [destruct n; [congruence|discriminate]|]. cbn [str_eqb]. exact IH.
+    - destruct (str_eqb [] k); [reflexivity|exact IH].
+  Qed.
+
+  Lemma o_rename_sim sw sl (O : orel sw sl) (ro rn : str) : okstr (SLASH :: ro) -> okstr (SLASH :: rn) ->
+    ocrel (o_rename sw (W (SLASH :: ro)) (W (SLASH :: rn))) (o_rename sl (SLASH :: ro) (SLASH :: rn)).
+  Proof.
+    intros Hoko Hokn. unfold o_rename, owin.
+    destruct (@oabs_W d Hd sw sl ro O Hoko) as (Eao & Hokao & Hrao). rewrite Eao. set (qo := oabs sl (SLASH :: ro)) in *.
+    destruct (@oabs_W d Hd sw sl rn O Hokn) as (Ean & Hokan & Hran). rewrite Ean. set (qn := oabs sl (SLASH :: rn)) in *.
+    rewrite (or_osw O), (or_osl O), (str_eqb_W d). cbn [ostype_eqb].
+    use_split qo Hokao Hrao dno fno E1 E2 Hkdo Hokfo Hmpo Hlto Hqo. rewrite E1, E2.
+    use_split qn Hokan Hran dnn fnn E3 E4 Hkdn Hokfn Hmpn Hltn Hqn. rewrite E3, E4.
+    pose proof (keyok_rooted Hokao Hrao) as Hkqo. pose proof (keyok_rooted Hokan Hran) as Hkqn.
+    assert (Henfo : okres (o_enf sw (W qo) (RFail ENoSuchFile)) = okres (o_enf sl qo (RFail ENoSuchFile))) by (apply enf_fail; assumption).
+    assert (Henfn : okres (o_enf sw (W qn) (RFail ENoSuchFile)) = okres (o_enf sl qn (RFail ENoSuchFile))) by (apply enf_fail; assumption).
+    use_find sw sl dno O opw opnw op opn Hopi Hopn.
+    2:{ destruct (ofind sw (W dnn)) as [[? ?]|]; destruct (ofind sl dnn) as [[? ?]|];
+          destruct (ofind sw (W qo)) as [[? ?]|]; destruct (ofind sl qo) as [[? ?]|]; (split; [exact O|exact Henfo]). }
+    destruct Hopn as (_ & _ & _ & _ & Hdop). rewrite Hdop.
+    use_find sw sl dnn O npw npnw np npn Hnpi Hnpn.
+    2:{ destruct (ofind sw (W qo)) as [[? ?]|]; destruct (ofind sl qo) as [[? ?]|];
+          (destruct (negb (on_dir opn)); [apply ocrel_fail, O|split; [exact O|exact Henfn]]). }
+    destruct Hnpn as (_ & _ & _ & _ & Hdnp). rewrite Hdnp.
+    use_find sw sl qo O ocw ocnw oc ocn Hoci Hocn.
+    2:{ destruct (negb (on_dir opn) || negb (on_dir npn)); [apply ocrel_fail, O|split; [exact O|exact Henfo]]. }
+    destruct (negb (on_dir opn) || negb (on_dir npn)); [apply ocrel_fail, O|].
+    destruct Hocn as (Ech & Edt & Enl & Eid & Hdoc). rewrite Hdoc.
+    change (sepc Windows) with BSLASH. change (sepc Linux) with SLASH. rewrite is_prefix_W'.
+    pose proof (@ofind_W d sw sl qn O) as Hfn.
+    destruct (ofind sw (W qn)) as [[ncw nnw]|]; destruct (ofind sl qn) as [[nc nn]|] eqn:Efn; try contradiction.
+    - destruct Hfn as (-> & (_ & _ & _ & _ & Hdn)). rewrite Hdn.
+      destruct (on_dir nn).
+      + destruct (Nat.eqb nc oc && negb (str_eqb (SLASH :: ro) (SLASH :: rn))); [apply ocrel_same, O|apply ocrel_fail, O].
+      + destruct (on_dir ocn && (Nat.eqb oc op || is_prefix (qo ++ [SLASH]) qn)); [apply ocrel_fail, O|].
+        destruct (on_dir ocn && true); [apply ocrel_fail, O|].
+        destruct (Nat.eqb nc oc); [apply ocrel_same, O|].
+        split; [|reflexivity]. cbn [fst]. rewrite (or_index O), (aset_W d), (aremove_W d).
+        assert (Hidx : Forall (fun e : str * nat => keyok (fst e)) (aremove str_eqb qo (aset str_eqb qn oc (o_index sl))))
+          by (apply keys_aremove, keys_aset; [exact Hkqn|apply O]).
+        assert (Hroot : ikey (aremove str_eqb qo (aset str_eqb qn oc (o_index sl))) [] <> None).
+        { rewrite (ikey_aremove_other _ (fun E : [] = qo => rooted_ne Hrao (eq_sym E))),
+                  (ikey_aset_other _ _ (fun E : [] = qn => rooted_ne Hran (eq_sym E))). apply O. }
+        assert (Hh : Forall2 onrel (o_del_child (o_add_child (o_release (o_heap sw) nc) np fnn oc) op fno)
+                                   (o_del_child (o_add_child (o_release (o_heap sl) nc) np fnn oc) op fno))
+          by (apply o_del_child_sim, o_add_child_sim, o_release_sim, O).
+        assert (Hnm : Forall names_ok (o_del_child (o_add_child (o_release (o_heap sl) nc) np fnn oc) op fno))
+          by (apply o_del_child_names, o_add_child_names; [split; assumption|apply o_release_names, O]).
+        destruct (on_dir ocn).
+        * rewrite o_rekey_W. apply orel_with; [exact O|apply o_rekey_keys; assumption| |exact Hh|exact Hnm].
+          rewrite (o_rekey_root _ _ (rooted_ne Hran)). exact Hroot.
+        * apply orel_with; assumption.
+    - destruct (on_dir ocn && (Nat.eqb oc op || is_prefix (qo ++ [SLASH]) qn)); [apply ocrel_fail, O|].
+      rewrite andb_false_r.
+      split; [|reflexivity]. cbn [fst]. rewrite (or_index O), (aset_W d), (aremove_W d).
+      assert (Hidx : Forall (fun e : str * nat => keyok (fst e)) (aremove str_eqb qo (aset str_eqb qn oc (o_index sl))))
+        by (apply keys_aremove, keys_aset; [exact Hkqn|apply O]).
+      assert (Hroot : ikey (aremove str_eqb qo (aset str_eqb qn oc (o_index sl))) [] <> None).
+      { rewrite (ikey_aremove_other _ (fun E : [] = qo => rooted_ne Hrao (eq_sym E))),
+                (ikey_aset_other _ _ (fun E : [] = qn => rooted_ne Hran (eq_sym E))). apply O. }
+      assert (Hh : Forall2 onrel (o_del_child (o_add_child (o_heap sw) np fnn oc) op fno)
+                                 (o_del_child (o_add_child (o_heap sl) np fnn oc) op fno))
+        by (apply o_del_child_sim, o_add_child_sim, O).
+      assert (Hnm : Forall names_ok (o_del_child (o_add_child (o_heap sl) np fnn oc) op fno))
+        by (apply o_del_child_names, o_add_child_names; [split; assumption|apply O]).
+      destruct (on_dir ocn).
+      + rewrite o_rekey_W. apply orel_with; [exact O|apply o_rekey_keys; assumption| |exact Hh|exact Hnm].
+        rewrite (o_rekey_root _ _ (rooted_ne Hran)). exact Hroot.
+      + apply orel_with; assumption.
+  Qed.
 End OCalls.
